@@ -29,6 +29,9 @@ def run(check: Check):
   _buffered_shuffle(check)
   _padded_multi(check)
   _concat(check)
+  # the final (padded) batch of the centralised stream is built by pad_examples (rules of C03)
+  from fjsa.props import c03
+  c03._pad_examples(check)
   _shuffle_batch(check)
   _repeatable(check)
   _centralised(check)
